@@ -629,3 +629,16 @@ fn needs_outer_mutability(reference: &Reference) -> bool
 	}
 	true
 }
+
+/// Verification hooks: give the replay harness access to the private
+/// rule kernel, without changing it.
+#[cfg(feature = "verif")]
+pub mod verif_hooks
+{
+	use super::*;
+
+	pub fn needs_outer_mutability(reference: &Reference) -> bool
+	{
+		super::needs_outer_mutability(reference)
+	}
+}
